@@ -45,8 +45,11 @@ def run_one(tape, opts):
     out = Outcome()
     flavour = tape.choice("config", lc.FLAVOURS, "flavour")
     cfg = cfg_for(tape)
+    runner = lc.draw_runner(tape)
+    if runner != "plain":
+        cfg.skip_decorators = False     # what @skip does to setUp/tearDown under the Twisted runners is not in any property
     prog = gen_program(tape, cfg)
-    sim = lc.simulate(prog, flavour)
+    sim = lc.simulate(prog, flavour, runner=runner)
     rr = sim.runs[0]
     lc.oracle_bracket(sim, rr, out)
     m = sim.model
@@ -63,6 +66,7 @@ def run_one(tape, opts):
     out.probe("flavour:" + flavour)
     if m.skip_decorated is not None:
         out.probe("skip-decorated")
+    out.probe("runner:" + runner)
     if opts.get("want_sample"):
         out.sample = lc.sample_of(sim)
     return out
